@@ -90,6 +90,7 @@ def run(prop, tier, seed, args):
         keep = list(range(len(cases)))
     timeout_ms = 10000 if tier == "quick" else 60000
     t_proof = time.time()
+    os.environ.setdefault("VF_CROSS_EVERY", "1" if len(cases) <= 150 else "25")  # thorough tier: share of proved obligations re-decided by other solvers
     all_results = fw.run_cases(modname, len(cases), None, timeout_ms)
     results = [all_results[i] for i in keep]
     proof_s = time.time() - t_proof
@@ -297,7 +298,7 @@ def run(prop, tier, seed, args):
         "assumed_contracts_on_dependencies": sorted(used_overrides - {q for q in used_overrides if q.startswith("vf.contracts.rt")}),
         "backends": sorted({o["backend"] for o in per_ob if o["backend"]}),
         "solver_ms": round(solver_ms, 1),
-        "independent_recheck": ({"rule": "thorough tier: a deterministic 1-in-25 sample of the proved obligations is re-decided from its SMT-LIB dump by two other solver builds; "
+        "independent_recheck": ({"rule": "thorough tier: every proved obligation (properties with <= 150 cases) or a deterministic 1-in-25 sample of them is re-decided from its SMT-LIB dump by two other solver builds; "
                                           "`sat` from either is a checker error, `unknown`/`timeout` are only counted", "results": cross} if any(cross.values()) else
                                 "thorough tier only"),
         "symbolic_execution_and_solving_wall_s": round(proof_s, 2),
